@@ -1120,9 +1120,442 @@ def _describe_reuse(scs, mode):
     return None
 
 
+# ---------------------------------------------------------------- ONE element wrong, at EVERY position
+# The checks of the summary are loops over collections (the derivation records of a map against the keys of the
+# attached script, the records against the declared xpubs, the inputs against their UTXOs, the outputs).  A loop
+# that looks at the first / the last / any one element only is invisible to a tampering that makes EVERY element
+# wrong, or that always spoils the first one.  Here exactly ONE element of a collection is wrong (or exactly one is
+# right), its position runs over all positions, and the map entries come in every order (the order of the records
+# in the byte stream is the sender's choice; the library's own serializer sorts them, a hand-built PSBT need not).
+#
+# Independent BIP174 / transaction / script encoder (nothing of the library): a scenario -> PSBT bytes with the
+# records in the scenario's order.
+import itertools as _it
+
+
+def r_varint(n):
+    if n < 0xfd:
+        return bytes([n])
+    if n < 0x10000:
+        return b"\xfd" + n.to_bytes(2, "little")
+    if n < 0x100000000:
+        return b"\xfe" + n.to_bytes(4, "little")
+    return b"\xff" + n.to_bytes(8, "little")
+
+
+def r_varstr(b):
+    return r_varint(len(b)) + b
+
+
+def r_kv(key, value):
+    return r_varstr(key) + r_varstr(value)
+
+
+def r_script(cmds):
+    """raw script bytes (no length prefix): an int is an opcode, bytes are pushed minimally"""
+    out = b""
+    for c in cmds:
+        if isinstance(c, int):
+            out += bytes([c])
+        elif len(c) <= 75:
+            out += bytes([len(c)]) + c
+        elif len(c) <= 255:
+            out += b"\x4c" + bytes([len(c)]) + c
+        else:
+            out += b"\x4d" + len(c).to_bytes(2, "little") + c
+    return out
+
+
+def r_h256(b):
+    return hashlib.sha256(hashlib.sha256(b).digest()).digest()
+
+
+def r_tx(version, ins, outs, locktime):
+    """legacy serialisation; ins = [(txid in display order, index, sequence)], outs = [(amount, raw script)]"""
+    out = version.to_bytes(4, "little") + r_varint(len(ins))
+    for txid, idx, seq in ins:
+        out += txid[::-1] + idx.to_bytes(4, "little") + b"\x00" + seq.to_bytes(4, "little")
+    out += r_varint(len(outs))
+    for amount, spk in outs:
+        out += amount.to_bytes(8, "little") + r_varstr(spk)
+    return out + locktime.to_bytes(4, "little")
+
+
+def r_prev_tx(pouts):
+    return r_tx(1, [(b"\x5a" * 32, 1, 0xfffffffe)], [(a, r_script(c)) for a, c in pouts], 0)
+
+
+def r_psbt(sc):
+    """PSBT bytes of a scenario; the previous transactions are re-encoded here (their txids change with that: an
+    outpoint that named the attached previous transaction names the re-encoded one, any other outpoint is kept)"""
+    net, ins, outs, hdmap, hdpubs, _ = sc
+    tx_ins, maps = [], []
+    for txid, idx, nonwit, wit, redeem, witness, pubs, value in ins:
+        m = b""
+        if nonwit:
+            h, pouts, raw = nonwit[0]
+            mine = r_prev_tx(pouts)
+            if txid == h:
+                txid = r_h256(mine)[::-1]
+            m += r_kv(b"\x00", mine)
+        if wit:
+            m += r_kv(b"\x01", wit[0][0].to_bytes(8, "little") + r_varstr(r_script(wit[0][1])))
+        for slot, typ in ((redeem, b"\x04"), (witness, b"\x05")):
+            if slot:
+                if r_script(slot[0]) != raw_script(slot[0]):
+                    raise AssertionError("harness: reference script encoder disagrees with Script.raw_serialize")
+                m += r_kv(typ, r_script(slot[0]))
+        for key, sec, xfp, comps in pubs:
+            m += r_kv(b"\x06" + sec, xfp + b"".join(c.to_bytes(4, "little") for c in comps))
+        maps.append(m + b"\x00")
+        tx_ins.append((txid, idx, 0xffffffff))
+    tx_outs = []
+    for amount, cmds, redeem, witness, pubs in outs:
+        m = b""
+        if redeem:
+            m += r_kv(b"\x00", r_script(redeem[0]))
+        if witness:
+            m += r_kv(b"\x01", r_script(witness[0]))
+        for key, sec, xfp, comps in pubs:
+            m += r_kv(b"\x02" + sec, xfp + b"".join(c.to_bytes(4, "little") for c in comps))
+        maps.append(m + b"\x00")
+        tx_outs.append((amount, r_script(cmds)))
+    g = r_kv(b"\x00", r_tx(2, tx_ins, tx_outs, 0))
+    for xfp, comps, xid in hdpubs:
+        g += r_kv(b"\x01" + xid, xfp + b"".join(c.to_bytes(4, "little") for c in comps))
+    return b"psbt\xff" + g + b"\x00" + b"".join(maps)
+
+
+def honest_expect(sc):
+    """[fee, inputs, spend, change, change flags] of an honest scenario, from the scenario alone"""
+    tin = sum(i[7][0] for i in sc[1])
+    change = sum(o[0] for o in sc[2] if o[4])
+    spend = sum(o[0] for o in sc[2] if not o[4])
+    return [[tin - spend - change, tin, spend, change, [1 if o[4] else 0 for o in sc[2]]]]
+
+
+def p_bytes_review(raw, net, hdmap, expect):
+    """What a cosigner does with PSBT BYTES it is asked to sign: PSBT.parse, then describe_basic_multisig with its
+    own record of the cosigner xpubs.  expect = [] : the bytes carry a tampering and must be refused (by the parser
+    or by the summary); expect = [[fee, inputs, spend, change, flags]] : an honest PSBT, must be summarised so."""
+    with _memo_mul():
+        try:
+            if expect or sum(raw) % 4 == 0:
+                import base64
+                p = PSBT.parse_base64(base64.b64encode(raw).decode(), network=NETS[net])     # the other way in
+            else:
+                p = PSBT.parse(BytesIO(raw), network=NETS[net])
+            hmap = {xfp.hex(): HDPublicKey.raw_parse(BytesIO(xid), network=NETS[net]) for xfp, xid, depth in hdmap}
+            d = p.describe_basic_multisig(hdpubkey_map=hmap)
+        except AssertionError:
+            raise
+        except Exception as e:  # noqa
+            return None if not expect else "honest PSBT bytes refused: %r" % (e,)
+    got = [d["tx_fee_sats"], d["total_input_sats"], d["spend_sats"], d["change_sats"],
+           [1 if o["is_change"] else 0 for o in d["outputs_desc"]]]
+    if not expect:
+        return "tampered PSBT bytes were summarised: fee=%d in=%d spend=%d change=%d flags=%s" % tuple(got)
+    if got != expect[0]:
+        return "summary %r, expected %r" % (got, expect[0])
+    if got[2] + got[3] + got[0] != got[1] or d["total_output_sats"] != got[2] + got[3]:
+        return "spend + change + fee != inputs"
+    return None
+
+
+def p_position_rejected(kind, sc):
+    """tamper_rejected for the one-element-wrong catalogue (scalar multiplications memoised: the same keys are
+    re-derived for every position and order)"""
+    with _memo_mul():
+        return p_tamper_rejected(kind, sc)
+
+
+def p_order_summary(sc, m, n):
+    """an honest PSBT whose map entries come in another order is summarised like any honest PSBT"""
+    with _memo_mul():
+        return p_honest_summary(sc, m, n)
+
+
+def p_default_map(sc_a, sc_b):
+    """describe_basic_multisig() WITHOUT the hdpubkey_map argument (its default is a dict literal): PSBT A carries
+    its cosigner xpubs itself and is summarised; PSBT B (the same or another wallet's coins, NO xpubs inside) described next
+    must be refused - nothing of A's cosigners may be left in the default; then A again, as before."""
+    with _memo_mul():
+        pa, _ = build(sc_a)
+        first = summary(pa.describe_basic_multisig())
+        pb, _ = build(sc_b)
+        try:
+            pb.describe_basic_multisig()
+        except AssertionError:
+            raise
+        except Exception:  # noqa
+            pass
+        else:
+            return "a PSBT without xpubs was summarised without hdpubkey_map after another PSBT had been described"
+        pa2, _ = build(sc_a)
+        if summary(pa2.describe_basic_multisig()) != first or summary(pa.describe_basic_multisig()) != first:
+            return "the same PSBT is summarised differently the second time"
+    return None
+
+
+def _orders(n, full=True):
+    ps = list(_it.permutations(range(n)))
+    if n <= 3 and full:
+        return ps
+    rot = [tuple((s + k) % n for k in range(n)) for s in range(n)]
+    return rot if not full or n <= 3 else rot + [tuple(reversed(p)) for p in rot]
+
+
+def _set_in_script(i, script):
+    """attach `script` to an input AND make the spent output commit to it (the previous transaction is rebuilt,
+    the outpoint follows)"""
+    p2sh = bool(i[4])
+    spk = p2sh_of(script) if p2sh else p2wsh_of(script)
+    if p2sh:
+        i[4] = [script]
+    else:
+        i[5] = [script]
+    if i[2]:
+        def edit(tx):
+            tx.tx_outs[i[1]].script_pubkey = spk_obj(spk)
+        _retx(i, edit)
+        i[0] = i[2][0][0]
+    if i[3]:
+        i[3][0][1] = spk
+
+
+def _loc(t, where):
+    """(record list holder, index of the record list) of a location: ("in", k) or ("out", k)"""
+    return (t[1][where[1]], 6) if where[0] == "in" else (t[2][where[1]], 4)
+
+
+def _loc_set_script(t, where, script):
+    if where[0] == "in":
+        _set_in_script(t[1][where[1]], script)
+    else:
+        _set_out_script(t[2][where[1]], None, script, True)
+
+
+def _loc_script(t, where):
+    x = t[1][where[1]] if where[0] == "in" else t[2][where[1]]
+    return ((x[5] or x[4]) if where[0] == "in" else (x[3] or x[2]))[0]
+
+
+def _explicit_script(m, keys):
+    return [0x50 + m] + list(keys) + [0x50 + len(keys), 174]
+
+
+def position_tampers(ctx, sc, where, full):
+    """(kind, scenario): at the location `where` (an input or the change output of the honest scenario sc) exactly
+    one element is wrong / exactly one is right; g = which one; the records in every order."""
+    m, n = _quorum(sc)
+    branch = 0 if where[0] == "in" else 1
+    tag = "%s%d" % where
+    holder, slot = _loc(sc, where)
+    genuine = [list(p) for p in holder[slot]]
+    gsecs = [p[1] for p in genuine]
+    foreign = [k[0] for k in _foreign_keys(n, 7)]
+    cos_of = {cosigner(c)[0]: c for c in range(n)}
+
+    def variants(kind, make, orders):
+        for g in range(n):
+            for oi, perm in enumerate(orders):
+                t = _copy.deepcopy(sc)
+                pubs = make(t, g, oi)
+                if pubs is None:
+                    continue
+                h, s = _loc(t, where)
+                h[s] = [pubs[k] for k in perm]
+                yield "%s@%s" % (kind, tag), t
+
+    # ---- the keys of the attached (and committed-to) script vs the records: decided by PSBTIn/PSBTOut.validate
+    def one_genuine(t, g, oi):
+        keys = list(foreign[:n - 1])
+        keys.insert((g + oi) % n, gsecs[g])          # the genuine key at every place of the script
+        _loc_set_script(t, where, _explicit_script(m, keys))
+        return genuine
+
+    def one_genuine_sorted(t, g, oi):
+        _loc_set_script(t, where, msig_cmds(m, [gsecs[g]] + foreign[:n - 1]))
+        return genuine
+
+    def one_foreign(t, g, oi):
+        keys = sorted(gsecs)
+        keys[keys.index(gsecs[g])] = foreign[0]
+        if oi % 2:
+            keys = sorted(keys)
+        _loc_set_script(t, where, _explicit_script(m, keys))
+        return genuine
+
+    def one_duplicate(t, g, oi):
+        keys = sorted(gsecs)
+        keys[keys.index(gsecs[g])] = gsecs[(g + 1) % n]   # a neighbour's key twice, cosigner g's key not at all
+        _loc_set_script(t, where, _explicit_script(m, keys))
+        return genuine
+
+    def one_pub_elsewhere(t, g, oi):
+        pubs = [list(p) for p in genuine]
+        xid = cosigner(cos_of[genuine[g][2]])[2]
+        sec = derive_traverse(xid, [branch, 9])
+        pubs[g] = [sec, sec, genuine[g][2], key_path(branch, 9)]     # derives correctly, is not in the script
+        return pubs
+
+    full_orders = _orders(n, full)
+    yield from variants("one-genuine-key-in-script", one_genuine, full_orders)
+    yield from variants("one-genuine-key-in-sorted-script", one_genuine_sorted, _orders(n, False))
+    yield from variants("one-foreign-key-in-script", one_foreign, full_orders)
+    yield from variants("one-duplicate-key-in-script", one_duplicate, _orders(n, False))
+    yield from variants("one-record-not-in-script", one_pub_elsewhere, full_orders)
+
+    # ---- one record that does not derive from its declared xpub: decided by the re-derivation loops
+    rot = _orders(n, False)
+
+    def one_wrong_path(t, g, oi):
+        pubs = [list(p) for p in genuine]
+        pubs[g][3] = pubs[g][3][:-1] + [pubs[g][3][-1] + 1]
+        return pubs
+
+    def one_wrong_branch(t, g, oi):
+        pubs = [list(p) for p in genuine]
+        pubs[g][3] = pubs[g][3][:-2] + [1 - pubs[g][3][-2], pubs[g][3][-1]]
+        return pubs
+
+    def one_foreign_xfp(t, g, oi):
+        pubs = [list(p) for p in genuine]
+        pubs[g][2] = hashlib.sha256(b"xfp" + pubs[g][2]).digest()[:4]
+        return pubs
+
+    def one_swapped_xfp(t, g, oi):
+        # record g claims the neighbour's fingerprint (declared, but the key is not the neighbour's)
+        pubs = [list(p) for p in genuine]
+        pubs[g][2] = genuine[(g + 1) % n][2]
+        return pubs
+
+    def one_cosigner_twice(t, g, oi):
+        # cosigner g's key is replaced by a second key of the neighbour (well derived, in the committed script)
+        pubs = [list(p) for p in genuine]
+        nb = genuine[(g + 1) % n]
+        sec = derive_traverse(cosigner(cos_of[nb[2]])[2], [branch, 11])
+        pubs[g] = [sec, sec, nb[2], key_path(branch, 11)]
+        _loc_set_script(t, where, msig_cmds(m, [p[1] for p in pubs]))
+        return pubs
+
+    yield from variants("one-wrong-index", one_wrong_path, rot)
+    yield from variants("one-wrong-branch", one_wrong_branch, rot)
+    yield from variants("one-foreign-xfp", one_foreign_xfp, rot)
+    yield from variants("one-swapped-xfp", one_swapped_xfp, rot)
+    if where[0] == "out":
+        yield from variants("one-cosigner-twice", one_cosigner_twice, rot)
+
+
+def hdmap_position_tampers(ctx, sc):
+    """one declared xpub is foreign (fingerprint kept), at every place of the hdpubkey_map"""
+    n = len(sc[3])
+    for g in range(n):
+        for perm in _orders(n, False):
+            t = _copy.deepcopy(sc)
+            t[3][g][1] = cosigner(10)[2]
+            t[3] = [t[3][k] for k in perm]
+            yield "one-foreign-xpub@map", t
+
+
+def input_position_tampers(ctx, sc):
+    """ONE input of several is wrong (UTXO, amount, script, threshold, records), at every input position"""
+    kind = _kind(sc)
+    m, n = _quorum(sc)
+    fs = msig_cmds(m, [k[0] for k in _foreign_keys(n)])
+    for k in range(len(sc[1])):
+        def cp():
+            t = _copy.deepcopy(sc)
+            return t, t[1][k]
+        tag = "@in%d" % k
+        if sc[1][k][2]:
+            t, i = cp()
+            _retx(i, lambda tx: setattr(tx.tx_outs[i[1]], "amount", tx.tx_outs[i[1]].amount + 100000))
+            i[7] = [i[7][0] + 100000]
+            if i[3]:
+                i[3][0][0] += 100000
+            yield "one-amount-nonwit" + tag, t
+            t, i = cp()
+            _retx(i, lambda tx: setattr(tx, "version", tx.version + 1))
+            yield "one-prev-tx-altered" + tag, t
+            t, i = cp(); i[0] = hashlib.sha256(i[0]).digest()
+            yield "one-outpoint-txid" + tag, t
+        if sc[1][k][3] and sc[1][k][2]:
+            t, i = cp(); i[3][0][0] += 100000; i[7] = [i[3][0][0]]
+            yield "one-both-utxo-amount" + tag, t
+        if sc[1][k][3]:
+            t, i = cp(); i[3][0][1] = p2sh_of(fs) if kind == "p2sh" else p2wsh_of(fs)
+            if sc[1][k][2]:
+                yield "one-both-utxo-script" + tag, t
+            else:
+                yield "one-wit-utxo-other-script" + tag, t
+        t, i = cp()
+        i[4 if kind == "p2sh" else 5] = [fs]
+        yield "one-foreign-in-script" + tag, t
+        t, i = cp(); i[2] = []; i[3] = []
+        yield "one-no-utxo-record" + tag, t
+        t, i = cp(); i[6] = i[6][1:]
+        yield "one-missing-record" + tag, t
+        if n >= 2:
+            m2 = m + 1 if m < n else m - 1
+            t, i = cp()
+            _set_in_script(i, [0x50 + m2] + i[4 if kind == "p2sh" else 5][0][1:])
+            yield "one-quorum-in" + tag, t
+            # an input of a smaller wallet (n-1 of the cosigners), consistent UTXO
+            t, i = cp()
+            i[6] = i[6][:-1]
+            _set_in_script(i, msig_cmds(min(m, n - 1), [p[1] for p in i[6]]))
+            yield "one-smaller-wallet-in" + tag, t
+
+
+def output_position_tampers(ctx, sc):
+    """the (tampered) change output at every place among the outputs; a second change output at every place"""
+    m, n = _quorum(sc)
+    c = _chg(sc)
+    kind = _kind(sc)
+    chg = sc[2][c]
+    rest = [o for k, o in enumerate(sc[2]) if k != c]
+    foreign = [k[0] for k in _foreign_keys(n, 7)]
+    for pos in range(len(rest) + 1):
+        t = _copy.deepcopy(sc)
+        o = _copy.deepcopy(chg)
+        _set_out_script(o, kind, msig_cmds(m, [o[4][0][1]] + foreign[:n - 1]), True)
+        t[2] = _copy.deepcopy(rest[:pos]) + [o] + _copy.deepcopy(rest[pos:])
+        yield "mixed-change@out%d" % pos, t
+        t = _copy.deepcopy(sc)
+        t[2] = _copy.deepcopy(rest[:pos]) + [_copy.deepcopy(chg)] + _copy.deepcopy(rest[pos:])
+        for pos2 in range(len(t[2]) + 1):
+            u = _copy.deepcopy(t)
+            u[2].insert(pos2, change_output(kind, m, wallet_keys(n, 1, 5), 1234))
+            yield "second-change@out%d,%d" % (pos, pos2), u
+            u = _copy.deepcopy(u)
+            for o in u[2]:
+                if o[4]:
+                    o[0] = 0                     # a change output of 0 sats is still a change output
+            yield "second-change-zero-sats@out%d,%d" % (pos, pos2), u
+
+
+def reordered_honest(sc):
+    """the honest scenario with the records of every map (and the declared xpubs) in every order"""
+    n = len(sc[1][0][6])
+    for perm in _orders(n, True):
+        t = _copy.deepcopy(sc)
+        for i in t[1]:
+            i[6] = [i[6][k] for k in perm]
+        for o in t[2]:
+            if o[4]:
+                o[4] = [o[4][k] for k in reversed(perm)]
+        if t[3]:
+            t[3] = [t[3][perm[k]] for k in perm]
+        t[4] = [t[4][k] for k in perm] if t[4] else []
+        yield t
+
+
 PROPS = {"tamper_rejected": p_tamper_rejected, "honest_summary": p_honest_summary,
          "rebuild_same": p_rebuild_same, "describe_reuse": p_describe_reuse,
-         "builder_crosschecks": p_builder_crosschecks}
+         "builder_crosschecks": p_builder_crosschecks, "bytes_review": p_bytes_review,
+         "position_rejected": p_position_rejected, "order_summary": p_order_summary,
+         "default_map": p_default_map}
 
 # tamperings that the implementation is KNOWN to summarise (findings/C11.json); everything else that is
 # accepted is a violation.  The structural test ties the key to the shape of the PSBT, not only to the label.
@@ -1246,11 +1679,79 @@ def mutations(ctx, sc, count):
         yield with_table(t)
 
 
+def position_cases(ctx):
+    """the one-element-wrong catalogue (see position_tampers): every tampered scenario is a property case on the
+    rebuilt objects (records in the scenario's order), a correspondence case for describe and for the declarative
+    wallet relation, and - as bytes from the independent encoder - a case for PSBT.parse + describe."""
+    r = ctx.rng
+    quick = ctx.tier == "quick"
+    # (m, n, kind, utxo, change kind, inputs, all orders)
+    wallets = [(2, 3, "p2wsh", "wit", None, 1, True), (2, 3, "p2sh", "nonwit", None, 1, True),
+               (2, 3, "p2wsh", "both", "p2sh-p2wsh", 1, False), (1, 2, "p2wsh", "nonwit", None, 2, True),
+               (2, 3, "p2sh", "nonwit", None, 1, False)]
+    if not quick:
+        wallets += [(2, 2, "p2sh", "nonwit", None, 2, True), (3, 3, "p2wsh", "both", None, 1, True),
+                    (1, 3, "p2sh", "nonwit", None, 1, True), (2, 4, "p2wsh", "wit", None, 1, True),
+                    (3, 4, "p2sh", "nonwit", None, 1, False)]
+
+    def emit(kind, t, label):
+        t = with_table(t)
+        ctx.label(label + " " + kind.split("@")[0])
+        yield ("prop", "position_rejected", [kind.encode(), t])
+        yield ("corr", "describe", [t])
+        if not outside_spec(t) and (t[3] or not t[4]):
+            yield ("corr", "honest_spec", [t, spec_m(t)])
+        yield ("prop", "bytes_review", [r_psbt(t), t[0], t[3], []])
+
+    last = None
+    for wi, (m, n, kind, utxo, ck, n_in, full) in enumerate(wallets):
+        last = sc if wi else None
+        sc = honest(ctx, kind, m, n, n_in, [r.randrange(600, 10 ** 7)], r.randrange(600, 10 ** 8), utxo=utxo,
+                    change_kind=ck)
+        if wi == 4:
+            # the cosigner xpubs come from the PSBT itself (global xpub records), no hdpubkey_map argument
+            sc = with_table([sc[0], sc[1], sc[2], [], [[x, [45 + H], xid] for x, xid, _ in sc[3]], []])
+            ctx.label("position wallet declared by global xpubs")
+            yield ("prop", "default_map", [sc, with_table([last[0], last[1], last[2], [], [], []])])
+            yield ("prop", "default_map", [sc, with_table([sc[0], sc[1], sc[2], [], [], []])])
+        ctx.label("position wallet %d-of-%d %s/%s" % (m, n, kind, ck or utxo))
+        yield ("prop", "bytes_review", [r_psbt(sc), sc[0], sc[3], honest_expect(sc)])
+        for t in reordered_honest(sc):
+            ctx.label("position honest-reordered")
+            yield ("prop", "order_summary", [t, m, n])
+            yield ("corr", "describe", [t])
+            if t[3]:
+                yield ("corr", "honest_spec", [t, m])
+            yield ("prop", "bytes_review", [r_psbt(t), t[0], t[3], honest_expect(t)])
+        locs = [("out", _chg(sc)), ("in", r.randrange(n_in))]
+        for where in locs:
+            for k, t in position_tampers(ctx, sc, where, full):
+                yield from emit(k, t, "position")
+        if wi < 2 or not quick:
+            for k, t in hdmap_position_tampers(ctx, sc):
+                yield from emit(k, t, "position")
+    # one input of three / one output of three
+    for kind, utxo in (("p2wsh", "both"), ("p2sh", "nonwit"), ("p2wsh", "wit")):
+        sc = honest(ctx, kind, 2, 3, 3, [r.randrange(600, 10 ** 7), r.randrange(600, 10 ** 7)],
+                    r.randrange(600, 10 ** 8), utxo=utxo)
+        ctx.label("position wallet 2-of-3 %s/%s 3 inputs 3 outputs" % (kind, utxo))
+        yield ("prop", "bytes_review", [r_psbt(sc), sc[0], sc[3], honest_expect(sc)])
+        for k, t in input_position_tampers(ctx, sc):
+            yield from emit(k, t, "position")
+        for k, t in output_position_tampers(ctx, sc):
+            yield from emit(k, t, "position")
+        if not quick:
+            for j in range(3):
+                for k, t in position_tampers(ctx, sc, ("in", j), False):
+                    yield from emit(k, t, "position")
+
+
 def generate(ctx):
     r = ctx.rng
     for cmds in quorum_shapes(ctx):
         yield ("corr", "quorum", [0, cmds])
         yield ("corr", "quorum", [1, cmds])
+    yield from position_cases(ctx)
     nmax = 3 if ctx.tier == "quick" else 4
     combos = [(m, n) for n in range(1, nmax + 1) for m in range(1, n + 1)]
     variants = ["helper", "p2sh", "p2wsh/wit", "p2wsh/nonwit", "p2wsh/both", "p2wsh/p2sh-p2wsh-change"]
